@@ -14,6 +14,7 @@ from ..describe import EPOCH, MS
 D4 = "D4-record-timestamps-floored-to-seconds-on-read"
 D16 = "D16-truncated-batch-with-colliding-crc-accepted"
 D17 = "D17-record-timestamps-outside-the-datetime-model"
+D21 = "D21-max-timestamp-check-compares-seconds-with-milliseconds"
 D18 = "D18-null-record-header-key-written-as-length-minus-one"
 BATCH_FIELDS = ("base_offset", "partition_leader_epoch", "attributes", "last_offset_delta", "base_timestamp", "max_timestamp",
                 "producer_id", "producer_epoch", "base_sequence")
@@ -405,6 +406,14 @@ def _identity(res: Result, raw: bytes, b: dict, label: str) -> bool:
             res.known_or_violation(D17, f"read-raises:{type(exc).__name__}:unrepresentable-timestamp",
                                    f"read_batch raised {exc!r} on a well-formed batch with record timestamp {outside[0]} ms ({label})", dict(payload, error=traceback.format_exc()))
             return False
+        above = [t for t in (b["base_timestamp"] + r["timestamp_delta"] for r in b["records"]) if t / 1000 > b["max_timestamp"]]
+        if above and b["attributes"] & 0x08 and isinstance(exc, ValueError) and "max timestamp" in str(exc):
+            # D21: the reader's sanity check compares a record's timestamp in *seconds* with max_timestamp in milliseconds
+            res.count("log_append_time_batches_rejected_by_seconds_vs_ms_check")
+            res.known_or_violation(D21, "read-raises:ValueError:seconds-vs-milliseconds",
+                                   f"read_batch raised {exc!r} on a LogAppendTime batch with max_timestamp {b['max_timestamp']} ms and a record at {above[0]} ms ({label})",
+                                   dict(payload, error=traceback.format_exc()))
+            return False
         res.violation(f"read-raises:{type(exc).__name__}", f"read_batch raised {exc!r} on a well-formed batch ({label})", dict(payload, error=traceback.format_exc()))
         return False
     if src.tell() != len(raw):
@@ -582,6 +591,14 @@ def c18_worker(res: Result, i: int, n: int) -> None:
             # header fields need not be "derived" for a batch coming from a broker: free last_offset_delta / larger max
             b["last_offset_delta"] = rng.randint(0, 2**31 - 1)
             b["max_timestamp"] = min(2**63 - 1, b["max_timestamp"] + rng.randint(0, 10**6))
+        if k % 10 == 7 and b["records"]:
+            # LogAppendTime (attribute bit 3): the broker overwrites max_timestamp with its own clock when it appends and leaves the
+            # producer's per-record timestamps as they are - with the producer's clock ahead, records lie above the header's maximum
+            tmax = max(b["base_timestamp"] + r["timestamp_delta"] for r in b["records"])
+            b["attributes"] |= 0x08
+            b["max_timestamp"] = max(0, tmax - rng.choice((1, 999, 1000, 60_000, 3_600_000)))
+            cell = dict(cell, order=cell["order"] + "+logappendtime")
+            res.count("log_append_time_batches_with_records_above_max_timestamp")
         if k % 4 == 2:
             # a compacted batch: the records at its head are gone, base offset / base timestamp (and last offset delta) are preserved, so the
             # first surviving record has non-zero deltas
